@@ -170,14 +170,33 @@ def run(ctx):
         pairs += 1
         if not (deps[0] <= {l} and deps[1] <= {r} and deps[0] and deps[1]):
           mixed.append(d)
+  # the other idiom: one row (or column) per channel, filled by subscript stores with a constant channel index
+  rows = {}
+  for st in U.walk_stmts(ms.node):
+    for tgt, val, op in U.store_targets(st):
+      if op == 'store' and val is not None and isinstance(tgt, ast.Subscript) and isinstance(tgt.slice, ast.Tuple) and len(tgt.slice.elts) == 2:
+        ks = [U.const_value(e) if not isinstance(e, ast.Slice) else None for e in tgt.slice.elts]
+        chan = [k for k in ks if k in (0, 1)]
+        if len(chan) == 1:
+          x = U.expand_locals(ms.node, val, None)
+          dep = set(n.id for n in ast.walk(x) if isinstance(n, ast.Name) and n.id in (l, r))
+          if dep:
+            pairs += 1
+            rows[chan[0]] = dep
+            if dep != {(l, r)[chan[0]]}:
+              mixed.append(tgt)
   ctx.ob('STEREO/slots', ms, mixed[0] if mixed else ms.node, pairs >= 1 and not mixed, 'every (x, y) pair built from the channels is (from left only, from right only)' if pairs >= 1 and not mixed else
          ('a pair of channel-derived values does not keep left in slot 0 and right in slot 1 (%s): which channel lands in which column depends on more than its side' % norm_text(mixed[0]) if mixed
-          else 'no (left, right) pair found in make_stereo'), construct='make_stereo keeps (left, right) slots')
+          else 'no (left, right) pair found in make_stereo'), construct='make_stereo keeps (left, right) slots',
+         unknown=None if (pairs >= 1 or mixed) else 'how make_stereo lays out the two channels is not one of the recognised idioms (a two-element display of channel-derived values, or stores with a constant channel index)')
   t = norm_text(ms.node)
   ok = 'np.array([len(%s), len(%s)])' % (l, r) in t and 'np.concatenate([%s, %s])' % (l, r) in t
-  ctx.ob('STEREO/order', ms, ms.node, ok, 'lengths and data are taken in (left, right) order' if ok else 'make_stereo does not lay out left then right consistently')
+  ok = ok or (rows.get(0) == {l} and rows.get(1) == {r})
+  ctx.ob('STEREO/order', ms, ms.node, ok, 'lengths and data are taken in (left, right) order' if ok else 'make_stereo does not lay out left then right consistently',
+         unknown=None if (mixed or 'np.concatenate' in t) else 'the layout idiom of make_stereo is not recognised')
   ok = 'np.zeros(' in t and isinstance(ms.node.body[-1], ast.Return) and norm_text(ms.node.body[-1].value).endswith('.T')
   ctx.ob('STEREO/zero-padded', ms, ms.node.body[-1], ok, 'the output is zero-initialised (the shorter channel is padded) and transposed to (samples, 2)' if ok else 'make_stereo does not zero-pad / transpose')
+  mono_untouched(ctx)
   sw = ctx.func('audio_io:samples_to_wav_data')
   ok = any(dotted(c.func) == 'float_samples_to_int16' and norm_text(c.args[0]) == sw.params()[0] for c in U.calls_in(sw.node)) and \
       any((dotted(c.func) or '').endswith('wavfile.write') for c in U.calls_in(sw.node))
@@ -189,6 +208,33 @@ def run(ctx):
   ctx.ob('WAV/samples-unmodified', sw, reb[0] if reb else sw.node, not reb, 'the samples reach the int16 conversion as given' if not reb else
          'samples_to_wav_data rebinds its samples before converting them (%s): some of the 65536 values no longer survive the WAV round trip' % norm_text(reb[0]),
          construct='samples_to_wav_data converts its parameter as given')
+
+
+def mono_untouched(ctx):
+  """Location-independent: the reader folds channels together only for a two-dimensional array (frames x channels).  A mono file
+  is one-dimensional; its last axis is time, so a channel test that looks at shape[-1] (or any shape entry) without first
+  establishing ndim == 2 treats a mono signal of exactly two samples as one stereo frame and averages it away."""
+  rd = ctx.func('audio_io:wav_data_to_samples')
+  fn = rd.node
+  for st in U.walk_stmts(fn):
+    if not isinstance(st, ast.Assign):
+      continue
+    v = st.value
+    collapse = isinstance(v, ast.Call) and ((dotted(v.func) or '').split('.')[-1] in ('to_mono', 'mean', 'sum', 'average')) and \
+        ((dotted(v.func) or '').endswith('to_mono') or any(k.arg == 'axis' for k in v.keywords) or len(v.args) >= 2)
+    if not collapse:
+      continue
+    conds = [U.expand_locals(fn, t, at=st) for t, p in U.path_conditions(fn, st) if p]
+    texts = [norm_text(t) for t in conds]
+    dim_known = any('.ndim' in t or 'len(' in t and '.shape)' in t for t in texts)
+    shape_test = [t for t in texts if '.shape[' in t]
+    if dim_known or not shape_test:
+      if dim_known:
+        ctx.ob('WAV/mono-untouched', rd, st, True, 'channels are folded only after the array is known to be two-dimensional', construct='channel fold requires ndim == 2', definite=True)
+      continue
+    ctx.ob('WAV/mono-untouched', rd, st, False, '%s runs whenever %s, without establishing that the array is two-dimensional: a mono signal (one axis, time) with exactly that many '
+           'samples is folded into a single value, so its round trip through samples_to_wav_data / wav_data_to_samples loses the signal' % (norm_text(st), ' and '.join(shape_test)),
+           construct='channel fold requires ndim == 2', definite=True)
 
 
 MUTANTS = [
